@@ -87,7 +87,7 @@ Proof.
 Qed.
 
 Lemma walker_is_python e :
-  in_subset T O e = true -> agrees (eval T O e) (py_eval O e).
+  in_subset T e = true -> agrees (eval T O e) (py_eval O e).
 Proof.
   induction e using expr_ind'; intros Hsub; rewrite eval_unfold; apply agrees_tick;
     simpl in Hsub; apply andb_true_iff in Hsub; destruct Hsub as [Hcls Hsub];
@@ -104,8 +104,7 @@ Proof.
     + simpl in Hop. unfold lookup. rewrite Hop. apply agrees_emit. apply agrees_of_opt.
   - destruct e; try discriminate.
     apply andb_true_iff in Hsub. destruct Hsub as [Hsub Hk].
-    apply andb_true_iff in Hsub. destruct Hsub as [Hsub Ha].
-    apply andb_true_iff in Hsub. destruct Hsub as [Hf Hcall].
+    apply andb_true_iff in Hsub. destruct Hsub as [Hf Ha].
     unfold lookup. rewrite Hf. simpl py_eval.
     apply agrees_bind.
     { apply agrees_list. eapply forallb_Forall_imp; [|exact Ha]. exact H. }
@@ -119,7 +118,8 @@ Proof.
       simpl in Hk. apply andb_true_iff in Hk. destruct Hk as [Hk1 Hk2].
       constructor; [|apply IH; exact Hk2]. destruct k; [|discriminate].
       split; [discriminate|apply Hx; exact Hk1]. }
-    intros kvs. rewrite Hcall. apply agrees_emit. apply agrees_of_opt.
+    intros kvs. destruct (o_callable O id); [apply agrees_emit; apply agrees_of_opt|].
+    intros s0. reflexivity.
   - unfold lookup. rewrite Hsub. apply agrees_emit. apply agrees_ret.
   - simpl. apply agrees_bind.
     { apply agrees_list. eapply forallb_Forall_imp; [|exact Hsub]. exact H. }
@@ -144,7 +144,7 @@ End Agree.
 
 (* ---------------------------------------------------------------------- *)
 Lemma agree_proof T O e s v :
-  cmp_returns_bool O -> in_subset T O e = true ->
+  cmp_returns_bool O -> in_subset T e = true ->
   fst (eval T O e s) = Ok v -> py_eval O e = Ok v.
 Proof.
   intros Hc Hs He. pose proof (walker_is_python T O Hc e Hs s) as H. rewrite He in H.
@@ -152,7 +152,7 @@ Proof.
 Qed.
 
 Lemma errors_propagate_proof T O e s k :
-  cmp_returns_bool O -> in_subset T O e = true ->
+  cmp_returns_bool O -> in_subset T e = true ->
   py_eval O e = Err k -> exists k', fst (eval T O e s) = Err k'.
 Proof.
   intros Hc Hs He. pose proof (walker_is_python T O Hc e Hs s) as H. rewrite He in H.
@@ -167,7 +167,7 @@ Definition guards_pass (max_len : Z) (env : menv) : Prop :=
 Lemma math_pathway_proof max_len T O reg allowed env e :
   cmp_returns_bool O -> guards_pass max_len env ->
   m_forced env = Some Glycolysis \/ (m_forced env = None /\ m_detect env = Glycolysis) ->
-  m_parse env = Returns e -> in_subset T O e = true ->
+  m_parse env = Returns e -> in_subset T e = true ->
   fst (metabolize true max_len T O reg allowed env) =
   match py_eval O e with Ok v => MSuccess v | Err _ => MFailure end.
 Proof.
@@ -185,7 +185,7 @@ Qed.
 Lemma logic_pathway_proof max_len T O reg allowed env e :
   cmp_returns_bool O -> guards_pass max_len env ->
   m_forced env = Some Krebs \/ (m_forced env = None /\ m_detect env = Krebs) ->
-  m_parse env = Returns e -> in_subset T O (normalize_tf e) = true ->
+  m_parse env = Returns e -> in_subset T (normalize_tf e) = true ->
   fst (metabolize true max_len T O reg allowed env) =
   match py_eval O (normalize_tf e) with
   | Ok v => MSuccess (if o_truthy O v then o_true O else o_false O)
